@@ -41,12 +41,12 @@ def same_as_spec(exp, st):
     return False
 
 
-def run(rep, pid, mode, tier, wd, pool, triples_pool=None):
+def run(rep, pid, mode, tier, wd, pool, cfg=None):
     path = os.path.join(wd, "pool-%s.ndjson" % mode)
     with open(path, "w") as f:
         for c in pool:
             f.write(json.dumps({"v": nv.tla_num(c)}) + "\n")
-    cfg = "MC_Tower_%s_%s.cfg" % (mode, tier)
+    cfg = cfg or "MC_Tower_%s_%s.cfg" % (mode, tier)
     r = nv.run_tlc("MC_Tower", cfg, wd, workers=nv.JOBS, timeout=3000, env={"POOL": path})
     if not r["ok"]:
         if "is violated" in r["error"]:
